@@ -122,7 +122,9 @@ def check(tier, seed):
         R.count(f"mode_{case['mode']}_prune_{int(case['prune'])}")
         bad = oracle(case["ops"], outs)
         if bad:
-            R.spec_violations.append((bad, {"prune": case["prune"], "ops": case["ops"]}))
+            small = C.shrink_list(case["ops"], lambda ops: oracle(ops, HX.run_history(case["prune"], ops)[0]) is not None)
+            R.spec_violations.append((oracle(small, HX.run_history(case["prune"], small)[0]) or bad,
+                                      {"prune": case["prune"], "ops": small}))
         if nontrivial(case, backing, t.root_hash, outs):
             R.nontrivial.add(C.case_key(case["ops"]))
             if len(R.samples) < 2:
